@@ -991,6 +991,10 @@ def stepper_streams(ctx, rng, n):
         if h[-1][0] != "q":
             h.append(["q", "probs", [1] + [0] * (m - 1)])
         hists.append(h)
+    # regression case: two parameter values that print alike in describe()
+    descs.append({"m": 2, "comps": [[0, "BS", [0, 1.0, [0.0, 0.0, 0.0, 0.0]]], [0, "PPS", ["p0", 0.3]],
+                                    [0, "BS", [0, 1.3, [0.0, 0.0, 0.0, 0.0]]]]})
+    hists.append([["circ", len(descs) - 1], ["q", "probs", [1, 0]], ["param", "p0", 0.30000007], ["q", "probs", [1, 0]]])
     cdesc = list(descs)
 
     def fresh_of(h, k, steps):
@@ -1046,6 +1050,9 @@ def processor_streams(ctx, rng, n, backend="SLOS"):
         if h[-1][0] != "q":
             h.append(["q", "probs"])
         hists.append(h)
+    # regression case: the default filter chosen by the first query outlives a change of input
+    descs.append({"m": 2, "comps": [[0, "BS", [0, 1.5707963267948966, [0.0, 0.0, 0.0, 0.0]]]]})
+    hists.append([["new", len(descs) - 1], ["input", [1, 1]], ["q", "probs"], ["input", [1, 0]], ["q", "probs"]])
     cdesc = list(descs)
 
     def fresh_of(h, k, steps):
